@@ -121,6 +121,27 @@ Fixpoint print_json (j : jvalue) : string :=
                 end) l ++ "}")%string
   end.
 
+(** Value::check_json_compatible: container keys and ValueLists cannot be rendered as JSON *)
+Fixpoint check_json (v : value) {struct v} : res unit :=
+  match v with
+  | VMap es =>
+      (fix go (es : list entry) : res unit :=
+         match es with
+         | [] => Ok tt
+         | (k, x, _, _) :: es' =>
+             if is_mapping k || is_sequence k || is_vlist k then Err (EJsonKey (variant k))
+             else _ <- check_json x ;; go es'
+         end) es
+  | VSeq l =>
+      (fix go (l : list value) : res unit :=
+         match l with
+         | [] => Ok tt
+         | x :: xs => _ <- check_json x ;; go xs
+         end) l
+  | VList _ => Err EJsonValueList
+  | _ => Ok tt
+  end.
+
 (** Value::raw_string *)
 Definition raw_string (v : value) : res string :=
   match v with
@@ -128,7 +149,7 @@ Definition raw_string (v : value) : res string :=
   | VNull => Ok "None"
   | VBool true => Ok "True"
   | VBool false => Ok "False"
-  | VMap _ | VSeq _ => j <- to_json v ;; Ok (print_json j)
+  | VMap _ | VSeq _ => _ <- check_json v ;; j <- to_json v ;; Ok (print_json j)
   | VNum n => Ok (num_display n)
   | _ => Err (ERawString (variant v))
   end.
